@@ -1,7 +1,104 @@
-(* C10 — pipeline placeholder; replaced by the real statements *)
-From Gdsl.Model Require Import Base NodeOps.
-From Gdsl.Proofs Require Import NodeLemmas.
+(* C10 — Preorder and postorder are depth-first discovery and finishing orders.
+   Model: coq/model/Search.v (`descend`, entry points order_edges / order_nodes; post = false: preorder, edge
+   recorded before the recursive call; post = true: postorder, recorded after it). "Some depth-first traversal"
+   is the relation DfsKids of coq/model/Spec.v. Any direction (DOut, DIn = transpose(), DAdj = undirected). *)
+From Gdsl.Model Require Import Spec Callback.
+From Gdsl.Proofs Require Import Descend Order.
 
-Theorem C10_placeholder_to_nil : forall (E : Type) v, to_ v (@nil (nat * E)) = [].
-Proof. exact to_nil. Qed.
-Print Assumptions C10_placeholder_to_nil.
+(* the targets of the recorded tree are the discovery order (pre) resp. finishing order (post) of ONE depth-first traversal (DfsKids) from the root; that traversal visits exactly the nodes reachable through accepted edges, each once *)
+Theorem c10_order_is_dfs_run :
+  forall (K V E : Type) (keqb : K -> K -> bool),
+       KeqbSpec keqb ->
+       forall (CB : Type) (cb : CB -> heap K V E -> edge E -> CB * heap K V E * bool)
+         (accept : edge E -> bool) (h : heap K V E),
+       Wf h ->
+       KeysInj h ->
+       PureCb h cb accept ->
+       forall (d : dir) (root : nat),
+       root < size h ->
+       forall (c0 : CB) (fuel : nat) (post : bool) (st : sst K V E CB) (tree : list (edge E)),
+       order_edges keqb cb d post fuel h c0 root = (st, Some tree) ->
+       exists pre pst S' : list nat,
+         DfsKids h d accept [root] root pre pst S' /\
+         map (edst (E:=E)) tree = (if post then pst else pre) /\
+         (forall v : nat, In v S' <-> Reach h d accept root v) /\
+         Permutation S' (root :: pre) /\ Permutation pre pst /\ NoDup (root :: pre).
+Proof. exact order_is_dfs_run. Qed.
+Print Assumptions c10_order_is_dfs_run.
+
+(* search_nodes = the root placed first (preorder) / last (postorder) around the targets of search_edges *)
+Theorem c10_search_nodes :
+  forall (K V E : Type) (keqb : K -> K -> bool) (CB : Type)
+         (cb : CB -> heap K V E -> edge E -> CB * heap K V E * bool) (h : heap K V E) 
+         (d : dir) (root : nat) (c0 : CB) (fuel : nat) (post : bool) (st : sst K V E CB) 
+         (l : list nat),
+       order_nodes keqb cb d post fuel h c0 root = (st, Some l) ->
+       exists tree : list (edge E),
+         order_edges keqb cb d post fuel h c0 root = (st, Some tree) /\
+         l = (if post then map (edst (E:=E)) tree ++ [root] else root :: map (edst (E:=E)) tree).
+Proof. exact order_nodes_spec. Qed.
+Print Assumptions c10_search_nodes.
+
+(* search_edges: accepted stored edges, exactly one entering each reachable non-root node, none entering the root, each leaving a reachable node *)
+Theorem c10_search_edges :
+  forall (K V E : Type) (keqb : K -> K -> bool),
+       KeqbSpec keqb ->
+       forall (CB : Type) (cb : CB -> heap K V E -> edge E -> CB * heap K V E * bool)
+         (accept : edge E -> bool) (h : heap K V E),
+       Wf h ->
+       KeysInj h ->
+       PureCb h cb accept ->
+       forall (d : dir) (root : nat),
+       root < size h ->
+       forall (c0 : CB) (fuel : nat) (post : bool) (st : sst K V E CB) (tree : list (edge E)),
+       order_edges keqb cb d post fuel h c0 root = (st, Some tree) ->
+       Forall (good_edge h d accept) tree /\
+       NoDup (map (edst (E:=E)) tree) /\
+       ~ In root (map (edst (E:=E)) tree) /\
+       (forall v : nat, v <> root -> Reach h d accept root v <-> In v (map (edst (E:=E)) tree)) /\
+       (forall e : edge E, In e tree -> Reach h d accept root (esrc e)).
+Proof. exact order_edges_tree. Qed.
+Print Assumptions c10_search_edges.
+
+(* for every accepted edge u->v among the traversed nodes, v precedes u in the finishing order unless u is reachable from v (or u = v) *)
+Theorem c10_post_edge_order :
+  forall (K V E : Type) (h : heap K V E) (d : dir) (accept : edge E -> bool) 
+         (root : nat) (pre pst S' : list nat),
+       DfsKids h d accept [root] root pre pst S' ->
+       forall e : edge E,
+       good_edge h d accept e ->
+       In (esrc e) (root :: pre) ->
+       esrc e = edst e \/ before (edst e) (esrc e) (pst ++ [root]) \/ Reach h d accept (edst e) (esrc e).
+Proof. exact post_edge_order_whole. Qed.
+Print Assumptions c10_post_edge_order.
+
+(* fuel_bound suffices: the orderings are always produced *)
+Theorem c10_terminates :
+  forall (K V E : Type) (keqb : K -> K -> bool),
+       KeqbSpec keqb ->
+       forall (CB : Type) (cb : CB -> heap K V E -> edge E -> CB * heap K V E * bool)
+         (accept : edge E -> bool) (vleb : V -> V -> bool) (h : heap K V E),
+       Wf h ->
+       KeysInj h ->
+       PureCb h cb accept ->
+       forall (d : dir) (root : nat),
+       root < size h ->
+       forall (c0 : CB) (fuel : nat) (t : option K) (cyc post : bool),
+       fuel_bound h <= fuel ->
+       snd (search_path keqb cb vleb KDfs d fuel h c0 root t cyc) <> RFuel E /\
+       snd (search_find keqb cb vleb KDfs d fuel h c0 root t) <> RFuel E /\
+       snd (order_edges keqb cb d post fuel h c0 root) <> None /\
+       snd (order_nodes keqb cb d post fuel h c0 root) <> None.
+Proof. exact dfs_terminates. Qed.
+Print Assumptions c10_terminates.
+
+
+Example c10_nonvacuous :
+  let ops : list (op nat nat nat) :=
+    [ONew 0 0; ONew 1 0; ONew 2 0; ONew 3 0; OConnect 0 1 10; OConnect 0 2 11; OConnect 1 3 12; OConnect 3 0 13] in
+  let h := fst (run_d Nat.eqb ops) in
+  let cb := (fun (c : unit) h' (_ : edge nat) => (c, h', true)) in
+  snd (order_nodes Nat.eqb cb DOut false 100 h tt 0) = Some [0; 1; 3; 2] /\
+  snd (order_nodes Nat.eqb cb DOut true 100 h tt 0) = Some [3; 1; 2; 0] /\
+  snd (order_nodes Nat.eqb cb DIn true 100 h tt 0) = Some [1; 3; 0].
+Proof. vm_compute. auto. Qed.
